@@ -48,6 +48,11 @@ bool verif_all_free(void) {
 	}
 	return true;
 }
+unsigned verif_max_acq(void) {
+	unsigned m = 0;
+	for (int i = 0; i < L_COUNT; i++) if (verif_acq_count[i] > m) m = verif_acq_count[i];
+	return m;
+}
 bool verif_held(int id) { return verif_rd[id] > 0 || verif_wr[id] > 0; }
 bool verif_held_w(int id) { return verif_wr[id] > 0; }
 void verif_locks_reset(void) {
